@@ -1570,9 +1570,11 @@ ASMJIT_FAVOR_SPEED Error BaseRAPass::bin_pack(RegGroup group) noexcept {
       else if (parent_reg->has_home_reg_id()) {
         uint32_t consecutive_id = parent_reg->home_reg_id() + 1;
 
-        // NOTE: We don't support wrapping. If this goes beyond all allocable registers there is something wrong.
+        // NOTE: We don't support wrapping. If this goes beyond all allocable registers the register cannot follow its
+        // parent (for example when two instructions use the same registers in a different order). This is not an error
+        // as home registers are only hints, the local allocator makes the registers consecutive where required.
         if (consecutive_id > 31 || !Support::bit_test(available_regs, consecutive_id)) {
-          return make_error(Error::kConsecutiveRegsAllocation);
+          continue;
         }
 
         work_reg->set_hint_reg_id(consecutive_id);
